@@ -264,7 +264,18 @@ def model_key(m: Model) -> tuple:
     return tuple((kn, lo, up) for kn, lo, up in (m.t[s] for s in range(1 << m.n)))
 
 
-def explore(st: Stats, n: int, roots, values, bounds, max_depth: int | None, with_neg: bool, tag: str) -> None:
+def clone(g, how: str):
+    """The object an operation is applied to: a public copy() of the state (default), a deep copy, or a pickle round trip of it."""
+    if how == "deepcopy":
+        import copy
+        return copy.deepcopy(g)
+    if how == "pickle":
+        import pickle
+        return pickle.loads(pickle.dumps(g))
+    return g.copy()
+
+
+def explore(st: Stats, n: int, roots, values, bounds, max_depth: int | None, with_neg: bool, tag: str, how: str = "copy") -> None:
     """BFS; states de-duplicated on (real table digest, model state)."""
     seen = set()
     frontier = []
@@ -282,19 +293,18 @@ def explore(st: Stats, n: int, roots, values, bounds, max_depth: int | None, wit
             st.evals += 1
             if msg:
                 st.violation(f"[game object n={n} {tag}] after {hist[-4:]}: {msg}", n=n, history=[list(map(_js, h)) for h in hist], tag=tag,
-                             root=tag)
+                             root=tag, clone=how)
                 if st.nviol >= 3:
                     return
                 continue
             if max_depth is not None and depth >= max_depth:
                 continue
             for op in alphabet(n, values, bounds, m, with_neg):
-                g2 = g.copy()
                 try:
-                    g2 = real_apply(g2, op)
+                    g2 = real_apply(clone(g, how), op)
                 except Exception as e:  # noqa: BLE001
                     st.violation(f"[game object n={n} {tag}] {op} raised {type(e).__name__}: {e} after {hist[-3:]}", n=n,
-                                 history=[list(map(_js, h)) for h in hist + [op]], tag=tag, root=tag)
+                                 history=[list(map(_js, h)) for h in hist + [op]], tag=tag, root=tag, clone=how)
                     if st.nviol >= 3:
                         return
                     continue
@@ -361,7 +371,8 @@ def unit(u) -> Stats:
                 roots.append((g2, m2, [op]))
                 st.transitions += 1
             depth = depth - 1
-        explore(st, n, roots, values, bounds, depth, with_neg, f"fresh/{first_ops}")
+        how = ("copy", "deepcopy", "pickle")[first_ops[0] % 3] if first_ops is not None and n >= 3 else "copy"
+        explore(st, n, roots, values, bounds, depth, with_neg, f"fresh/{first_ops}/{how}", how)
     else:
         v = A.shifted(A.a3_sa()[700], A.ADD3) if n == 3 else A.shifted(A.a4_sa_reps(0)[50], A.ADD4)
         Ks = list(A.knowledge_sets(n))[:8] if n == 3 else list(A.knowledge_sets(n))[::128]
@@ -386,6 +397,7 @@ def run(run: Run) -> None:
     run.rule = ("BFS over public value operations {set/unset/reveal/unreveal, bulk set, bulk reset, bulk bound setters, negate} of the real object; "
                 "n=1,2 to closure (values {0,1}, bounds {-1,3}), n=3 depth <= 3 (thorough 4), n=5 depth <= 2, plus non-initial roots produced by a real "
                 "bound computer; in every state all public getters are compared with a dict model and copy/negation independence is probed. "
+                "every operation is applied to a clone of the state: public copy(), copy.deepcopy or a pickle round trip (rotating over the search shards). "
                 "states are de-duplicated on (table digest, model state); non-trivial = distinct states")
     run.bounds = {"closure_n": [1, 2], "depth_n3": 3 if quick else 4, "depth_n5": 2, "negation_as_transition_n2": not quick}
     run.assumptions = ["bounds of unknown coalitions after unset / bulk reset / construction are unspecified by the statement and not compared"]
@@ -405,7 +417,7 @@ def replay(doc: dict):
         op = tuple(tuple(x) if isinstance(x, list) else x for x in op)
         snap = np.array(g.get_upper_bounds(), dtype=np.float64)[::-1].copy()
         try:
-            g = real_apply(g, op)
+            g = real_apply(clone(g, doc.get("clone", "copy")), op)
         except Exception as e:  # noqa: BLE001
             return True, f"{op} raised {type(e).__name__}: {e}"
         if op[0] == "set_values_alias_rev":
